@@ -27,6 +27,7 @@ void vp_assert(bool c, const char* label) { g_asserts++; dig(label, strlen(label
 void vp_reach(const char*) {}
 void vp_observe(uint64_t v) { dig(&v, 8); }
 int vp_is_symbolic(void) { return 0; }
+int vp_fork_int(int v) { return v; }
 }
 int main(int argc, char** argv) {
   if (argc < 2) { fprintf(stderr, "usage: %s replay-file\n", argv[0]); return 2; }
